@@ -287,7 +287,8 @@ def replay(scn, steps, inputs, kind, hang_s=3.0, total_s=30.0, verbose=False):
             result['status'] = ('raised', f'{type(e).__name__}: {e}')
 
     out = {'reproduced': False, 'observed': None, 'diverged': None}
-    with stubs.patched(scn.modules, deque_in=scn.deque_in, extra=scn.extra_patches(),
+    with stubs.patched(scn.modules, deque_in=scn.deque_in,
+                       extra=(scn.extra_patches() if stubs._PATCH_DEPTH == 0 else ()),
                        tracked=getattr(scn, 'tracked', ())):
         th = _th.Thread(target=main, daemon=True, name='replay-main')
         t0 = time.time()
